@@ -17,6 +17,7 @@ class Hang(BaseException):
 
 class World:
     calls = 0
+    refusals = 0
     cap = 300
     log = None
     comps = None
@@ -45,6 +46,9 @@ class CNode(fm.TimeComponent):
     All inputs are pulled initially."""
 
     cache = True  # ConnectHelper(cache=...): class attribute so that a whole composition can be switched
+    variant = None  # "late_rules": the connector is created without transfer rules, they are added afterwards (add_*_info_rule);
+    #                 "fault": constant initial data is first handed in in a unit the output refuses (FinamDataError out of try_connect,
+    #                 whenever the push is finally attempted); the component handles the refusal and hands in the valid data at once
 
     def __init__(self, name, ins, outs, start=0):
         super().__init__()
@@ -85,7 +89,17 @@ class CNode(fm.TimeComponent):
                 self.outputs.add(name=n)
                 if im.startswith("from_in:"):
                     out_rules[n] = [FromInput(im.split(":")[1]), FromValue("time", self.time), FromValue("units", "m"), FromValue("tag", self.name)]
-        self.create_connector(pull_data=[n for n, _ in self.ins], in_info_rules=in_rules, out_info_rules=out_rules, cache=CNode.cache)
+        if CNode.variant == "late_rules":
+            self.create_connector(pull_data=[n for n, _ in self.ins], cache=CNode.cache)
+            for n, rules in in_rules.items():
+                for r in rules:
+                    self.connector.add_in_info_rule(n, r)
+            for n, rules in out_rules.items():
+                for r in rules:
+                    self.connector.add_out_info_rule(n, r)
+        else:
+            self.create_connector(pull_data=[n for n, _ in self.ins], in_info_rules=in_rules, out_info_rules=out_rules, cache=CNode.cache)
+        self.refused = 0
 
     def const_value(self, oname):
         return 100.0 * (ord(self.name[0]) - 64) + 10.0 * [o[0] for o in self.outs].index(oname)
@@ -116,7 +130,16 @@ class CNode(fm.TimeComponent):
         before = snapshot(conn)
         was_out = {n: bool(conn.data_pushed.get(n)) for n in push}
         self.ncalls += 1
-        self.try_connect(st, exchange_infos=ex_infos, push_infos=push_infos, push_data=push)
+        if CNode.variant == "fault" and not self.refused:
+            bad_push = {n: (fm.UNITS.Quantity(v, "s") if dict((o[0], o[2]) for o in self.outs)[n] == "const" else v) for n, v in push.items()}
+            try:
+                self.try_connect(st, exchange_infos=ex_infos, push_infos=push_infos, push_data=bad_push)
+            except E.FinamDataError:
+                self.refused += 1
+                World.refusals += 1
+                self.try_connect(st, exchange_infos=ex_infos, push_infos=push_infos, push_data=push)
+        else:
+            self.try_connect(st, exchange_infos=ex_infos, push_infos=push_infos, push_data=push)
         after = snapshot(conn)
         for n, v in push.items():
             if not was_out[n] and conn.data_pushed.get(n):
@@ -203,10 +226,11 @@ def expected_value(specs, links, X, i, memo=None, published=None):
             return sum(expected_value(specs, links, Y, d, None, published) for d in dm.split(":")[1].split(",")) + 1.0
 
 
-def run_connect(specs, links, order, link_order, cache=True):
+def run_connect(specs, links, order, link_order, cache=True, variant=None):
     """executes the real Composition.connect; returns (outcome, observations, comps)"""
     World.calls = 0
     CNode.cache = cache
+    CNode.variant = variant
     comps = {s[0]: CNode(*s) for s in specs}
     World.comps, World.links, World.early = comps, links, []
     c = compose([comps[n] for n in order])
